@@ -94,6 +94,14 @@ def invalid(ctx, al, G, m, u):
 
 
 def one_graph(ctx, dn, G, m, nodes, strings, exhaustive):
+    # one graph with all its queries, under a wall-clock alarm (a library call that does not return within the
+    # deadline is abandoned and counted as skipped, never judged)
+    from ..core import case_deadline
+    with case_deadline(ctx, 40):
+        _one_graph_body(ctx, dn, G, m, nodes, strings, exhaustive)
+
+
+def _one_graph_body(ctx, dn, G, m, nodes, strings, exhaustive):
     import dynetx.algorithms as al
     rng = ctx.rng
     ctx.cases += 1
